@@ -260,7 +260,7 @@ def replay(case, rec):
 
 
 def run(rec, rng, tier, shard, nshards):
-    n = 400 if tier == 'quick' else 7000
+    n = 1000 if tier == 'quick' else 12000
     for i in range(n):
         case = gen_case(rng)
         try:
